@@ -230,3 +230,46 @@ func VH_C09_trylocksender_step() {
 	vAssert(vLocksHeld() == 0, "C09.trylock.no-lock-held")
 	cancel()
 }
+
+// The sender lock with TWO goroutines waiting for it: when the holder lets go exactly one of them
+// gets it, the other one keeps waiting until that one lets go too - never two holders at once, and
+// every unlock finds the lock it took.
+func VH_C09_locksender_two_waiters() {
+	t := &vTransport{}
+	c := vNewConn(t, nil)
+	c.mu.Lock()
+	c.lockSender() // the harness goroutine holds the sender lock
+	c.mu.Unlock()
+	holders, maxHolders, served := 0, 0, 0
+	gate := make(chan struct{})
+	waiter := func() {
+		c.mu.Lock()
+		c.lockSender()
+		holders++
+		if holders > maxHolders {
+			maxHolders = holders
+		}
+		c.mu.Unlock()
+		<-gate // "sending": the lock is held without Conn.mu
+		c.mu.Lock()
+		holders--
+		c.unlockSender()
+		c.mu.Unlock()
+		served++
+	}
+	go waiter()
+	go waiter()
+	vSettle()
+	vAssert(holders == 0, "C09.locksender.waiters-wait-while-the-lock-is-held")
+	c.mu.Lock()
+	c.unlockSender()
+	c.mu.Unlock()
+	vSettle()
+	vReach("handed-over")
+	vAssert(holders == 1 && maxHolders == 1, "C09.locksender.exactly-one-waiter-gets-the-lock")
+	close(gate)
+	vSettle()
+	vReach("all-served")
+	vAssert(served == 2 && maxHolders == 1, "C09.locksender.one-holder-at-a-time-and-everyone-is-served")
+	vQuiescent(c, "C09.locksender")
+}
